@@ -7,7 +7,7 @@ set -u
 export GOFLAGS=-mod=mod GOPROXY=off GOSUMDB=off GOTOOLCHAIN=local
 id="$1"; prop="$2"; wt="$3"; demo="$4"
 out=/verif/seeded/$id; mkdir -p $out
-(cd $wt && git diff -- . ':!*_test.go') > $out/patch.diff
+(cd $wt && git diff -- . ':!*_test.go' ':!*verif_contracts.go') > $out/patch.diff
 cp $wt/$demo $out/demo_test.go
 scratch=$(mktemp -d /tmp/seeded.XXXXXX); rsync -a --exclude .git /repo/ $scratch/repo/
 cd $scratch/repo
